@@ -236,17 +236,21 @@ def sweep_job(job):
     root, overlay, chunk, sc, base = job
     th = TH(Source(root, overlay))
     recs, n, k = [], 0, base
+    groups = {}
     for mi, (inner, nbmap) in enumerate(chunk):
         vcls = "SymFalsyVert" if (base + mi) % 2 else "Vertex"    # a traversal never depends on the truth value of a vertex
         for members in (None, list(inner)):
             member = (lambda v: True) if members is None else (lambda v, m=set(members): v in m)
             for ti, tname in enumerate(TRAVS):
                 base_listing = None
+                groups[tname] = groups.get(tname, base) + 1
+                gc = groups[tname]
                 for fi, ffr in enumerate(FF_RESULTS + ("none/other-form", "none/defaults")):
                     k += 1
-                    # settings, form and ff_result vary independently of each other across the sweep
-                    settings = SETTINGS[(k * 7 + fi * 5 + ti) % len(SETTINGS)]
-                    form = "gen" if (k // 5 + fi + ti) % 2 == 0 else "list"
+                    # one settings triple per (map, universe, traversal) group, cycling through all 18 per traversal; the form is
+                    # chosen by a hash so that it is independent of both the settings and ff_result
+                    settings = SETTINGS[gc % len(SETTINGS)]
+                    form = "gen" if ((gc * 2654435761 + fi * 40503) >> 13) & 1 else "list"
                     if ffr == "none/other-form":
                         ffr, form, settings = "none", ("list" if base_form == "gen" else "gen"), base_settings     # generator and list forms on the same input
                     elif ffr == "none/defaults":
